@@ -115,6 +115,8 @@
 (declare-fun bitand (Int Int) Int)
 ; go/types: the returned expression is absent or the untyped nil (decided by the trusted closure isRetNil)
 (declare-fun RetIsNil (Ref) Bool)
+; the callee expression of an eta-shaped literal refers to one of the literal's parameters (decided by the trusted rewriter.mentionsParam)
+(declare-fun CalleeMentionsParam (Ref) Bool)
 ; supported subset (C12): abstract; the rules that generate it are the `ghost` clauses of the pass-2 contracts
 (declare-fun Sup (Iface) Bool)
 (declare-fun SupList (Slice) Bool)
